@@ -12,6 +12,8 @@ for h in de3245c 7a23391 fedfc91 571e6e0 38dab89 dbadff5 e16fa69 80f5091 024510a
   # 83c010f (aliased AMUSEt results) was followed by two commits on the same lines (stale row_dims): its defect is re-introduced
   # together with theirs (reverse of all three on tedmd.py)
   if [ $h = 83c010f ]; then git -C /repo diff 7e2c594 83c010f^ -- scikit_tt/data_driven/tedmd.py > $dir/patch.diff; fi
+  # a later repair touched the same lines (571e6e0 <- 1857b8a): the hand-rebased reverse patch kept beside it is used instead
+  if [ -f $dir/override.diff ]; then cp $dir/override.diff $dir/patch.diff; fi
   wt=/tmp/mw/rev_$h
   git -C /repo worktree remove --force $wt >/dev/null 2>&1
   git -C /repo worktree add -q --detach $wt HEAD
